@@ -166,6 +166,20 @@ def frame(B, cfg, T_, variant):
     if variant.get('no_duration') and dosing:
         cols.remove('Duration')
     df = pd.DataFrame(flat, columns=cols)
+    # the row labels of the frame carry no meaning: a frame that was sorted,
+    # filtered or concatenated keeps the labels of its history
+    ix = variant.get('index')
+    n = len(df)
+    if ix == 'reversed':
+        df.index = list(range(n))[::-1]
+    elif ix == 'rotated':
+        df.index = [(k + n // 2) % n for k in range(n)]
+    elif ix == 'gaps':
+        df.index = [3 * k + 7 for k in range(n)]
+    elif ix == 'strings':
+        df.index = ['r%d' % ((5 * k) % (n + 1)) for k in range(n)]
+    elif ix == 'duplicates':
+        df.index = [k // 2 for k in range(n)]
     appearance = []
     for r in flat:
         if str(r['ID']) not in appearance:
@@ -445,6 +459,11 @@ VARIANTS = [
     {'int_ids': True, 'order': 'interleaved', 'junk': True},
     {'missing': True, 'junk': True, 'order': 'reversed rows',
      'int_ids': True, 'extra_column': True},
+    {'index': 'reversed'},
+    {'index': 'rotated', 'order': 'interleaved', 'junk': True},
+    {'index': 'gaps', 'cov_rows': 'end', 'missing': True},
+    {'index': 'strings', 'order': 'reversed rows', 'int_ids': True},
+    {'index': 'duplicates', 'order': 'interleaved', 'cov_rows': 'top'},
 ]
 
 
@@ -521,11 +540,13 @@ def jobs(tier):
 
 BOUNDS = dict(
     quick='1-3 individuals with unbalanced sampling times (0-3 measurements '
-          'per output), 1-2 outputs, 9 renderings of every dataset (row '
+          'per output), 1-2 outputs, 14 renderings of every dataset (row '
           'order: blocks / interleaved / reversed; unrelated observable rows '
           'and an extra column; rows with missing value or missing time; '
           'string or integer IDs that do not sort like their order of '
-          'appearance; the output-observable map in reversed key order; the '
+          'appearance; row labels of the frame reversed / rotated / with gaps '
+          '/ strings / duplicated; the output-observable map in reversed key '
+          'order; the '
           'covariates as a separate block of rows in another ID order); '
           'replicate measurements (the same reading twice, two readings at '
           'one time); dosed model with 3 sets of per-individual dose rows '
